@@ -156,6 +156,20 @@ macro_rules! numtype {
                     NumericValue::Value(x) => if x >= lo && x <= hi { Ok(x) } else { Err(-222) },
                 }
             };
+            // the default configured before, between or after the bounds
+            if with_default {
+                let orders: [(&str, Result<$t, Error>); 3] = [
+                    ("default-first", v.build().default(def).max(hi).min(lo).finish()),
+                    ("default-between", v.build().max(hi).default(def).min(lo).finish()),
+                    ("default-first-min-max", v.build().default(def).min(lo).max(hi).finish()),
+                ];
+                for (oname, got) in orders.iter() {
+                    ctx.count("resolve.builder.default-order");
+                    if !same(got, &want) {
+                        ctx.violation(&format!("C17:resolution-differs:builder-{}:{}", oname, kind), detail(&format!("finish={:?} expected={:?}", got.as_ref().map_err(|e| e.get_code()), want)));
+                    }
+                }
+            }
             let variants: [(&str, Result<$t, Error>, $t, $t); 4] = [
                 ("build-only", v.build().finish(), tmin, tmax),
                 ("max-only", v.build().max(hi).finish(), tmin, hi),
